@@ -704,7 +704,7 @@ static void on_terminate() { crash_line("TERMINATE", 0); _exit(79); }
 extern "C" void __sanitizer_set_death_callback(void (*)(void));
 static void on_death() { crash_line("SANITIZER", 0); }
 #endif
-extern "C" __attribute__((used)) const char *__asan_default_options() { return "exitcode=77:detect_leaks=0:abort_on_error=0"; }
+extern "C" __attribute__((used)) const char *__asan_default_options() { return "exitcode=77:detect_leaks=0:abort_on_error=0:quarantine_size_mb=16"; }
 extern "C" __attribute__((used)) const char *__ubsan_default_options() { return "halt_on_error=1:exitcode=77"; }
 
 static bool applicable(const Case &c) {
